@@ -2,6 +2,9 @@
 // Part 1: sequential seeded histories (issuance interleaved with address generation, restarts, export/import,
 // lock changes): every issued key must be the derived key at the next external index of its keystore, globally
 // unique, with ordinal == index, and later lookups must agree (also after restart).
+// Part 3: the keeper names plot files after (ordinal, key): a real capacity keeper creates 1-14 header-only spaces
+// on a wallet that has already issued 0-12 keys (so ordinals run past 9 and past the number of files), every file
+// name must carry the wallet's ordinal of its key, and a second keeper on the reopened wallet must index every file.
 // Part 2: concurrent issuance from 2-8 goroutines on 1-2 keystores: the issuance log (unique keys make the
 // history unambiguous) must be, per keystore, exactly indices 0..n-1 once each, each key the derived one.
 package main
@@ -11,8 +14,15 @@ import (
 	"fmt"
 	"os"
 	"path/filepath"
+	"regexp"
+	"runtime"
+	"sort"
+	"strconv"
 	"sync"
 
+	"massnet.org/mass/config"
+	"massnet.org/mass/poc/engine"
+	"massnet.org/mass/poc/engine/spacekeeper/capacity"
 	"verif/harness/internal/vh"
 	"verif/harness/internal/wl"
 )
@@ -150,6 +160,122 @@ func concurrentCase(run *vh.Run, root *vh.Rng, i, ci int) {
 	}
 }
 
+var plotNameRe = regexp.MustCompile(`^(\d+)_([0-9a-f]{66})_(\d{2})\.massdb$`)
+
+func keeperCase(run *vh.Run, root *vh.Rng, i, ci int) {
+	rng := root.Derive("keeper", i)
+	dir := filepath.Join(run.Scratch, fmt.Sprintf("keeper-%d", i))
+	plots := filepath.Join(dir, "plots")
+	os.MkdirAll(plots, 0o755)
+	defer os.RemoveAll(dir)
+	defer runtime.GC() // plot files of the keepers are closed by finalizers
+	pub, priv := wl.FreshPass(rng), wl.FreshPass(rng)
+	w, err := wl.Create(filepath.Join(dir, "ks"), pub, nil)
+	if err != nil {
+		run.Drop("cannot create wallet")
+		return
+	}
+	closeW := func() {
+		if w != nil {
+			w.Close()
+			w = nil
+		}
+	}
+	defer closeW()
+	if _, err := w.M.NewKeystore(priv, rng.Bytes(32), "plots", wl.Net(), wl.FastScrypt); err != nil {
+		run.Drop("cannot create keystore")
+		return
+	}
+	w.M.Unlock(priv)
+	before := rng.Intn(13)
+	for j := 0; j < before; j++ {
+		w.M.GenerateNewPublicKey()
+	}
+	n := rng.Range(1, 14)
+	trace := []string{fmt.Sprintf("wallet with one keystore, %d plot keys issued before", before), fmt.Sprintf("keeper 1: ConfigureByBitLength({24: %d}) in an empty directory", n)}
+	viol := func(kind string, attrs map[string]string, det map[string]interface{}) {
+		det["trace"] = trace
+		run.Violate(ci, kind, attrs, det)
+	}
+	cfg := &config.Config{Miner: &config.Miner{ProofDir: []string{plots}}}
+	ski, err := capacity.NewSpaceKeeperV1(cfg, w.M)
+	if err != nil {
+		run.Drop("keeper construction failed: " + err.Error())
+		return
+	}
+	k1 := ski.(*capacity.SpaceKeeper)
+	infos, err := k1.ConfigureByBitLength(map[int]int{24: n}, false, false)
+	if err != nil || len(infos) != n {
+		run.Drop(fmt.Sprintf("ConfigureByBitLength gave %d spaces, err %v", len(infos), err))
+		return
+	}
+	created := map[string]int{} // space id -> ordinal in its file name
+	var ords []int
+	ents, _ := os.ReadDir(plots)
+	for _, e := range ents {
+		m := plotNameRe.FindStringSubmatch(e.Name())
+		if m == nil {
+			continue
+		}
+		ord, _ := strconv.Atoi(m[1])
+		got, ok := w.M.GetPublicKeyOrdinal(wl.ParsePub(m[2]))
+		run.Count("plot_file_names_checked", 1)
+		if !ok || int(got) != ord {
+			viol("plot-file-name-ordinal-disagrees-with-wallet", nil, map[string]interface{}{"file": e.Name(), "wallet_ordinal": got, "wallet_knows_key": ok})
+		}
+		created[m[2]+"-"+m[3]] = ord
+		ords = append(ords, ord)
+	}
+	sort.Ints(ords)
+	for j, o := range ords {
+		if o != before+j {
+			viol("plot-file-ordinals-not-consecutive", nil, map[string]interface{}{"ordinals_in_file_names": ords, "keys_issued_before": before})
+			break
+		}
+	}
+	if len(created) != n {
+		viol("plot-files-created-differ-from-request", nil, map[string]interface{}{"files": len(created), "requested": n})
+	}
+	// restart: the wallet store is closed and reopened, a new keeper scans the directory
+	closeW()
+	w, err = wl.Open(filepath.Join(dir, "ks"), pub, nil)
+	if err != nil {
+		viol("reopen-failed", nil, map[string]interface{}{"err": err.Error()})
+		return
+	}
+	w.M.Unlock(priv)
+	trace = append(trace, "wallet closed and reopened; keeper 2 on the same directory: ConfigureByFlags(SFAll)")
+	ski2, err := capacity.NewSpaceKeeperV1(cfg, w.M)
+	if err != nil {
+		viol("keeper-construction-failed-after-restart", nil, map[string]interface{}{"err": err.Error()})
+		return
+	}
+	k2 := ski2.(*capacity.SpaceKeeper)
+	infos2, err := k2.ConfigureByFlags(engine.SFAll, false, false)
+	seen := map[string]bool{}
+	for _, in := range infos2 {
+		seen[in.SpaceID] = true
+	}
+	var missing []string
+	maxOrd := 0
+	for id, ord := range created {
+		if !seen[id] {
+			missing = append(missing, fmt.Sprintf("%d_%s", ord, id))
+		}
+		if ord > maxOrd {
+			maxOrd = ord
+		}
+	}
+	sort.Strings(missing)
+	run.Count("keeper_restarts_compared", 1)
+	run.Count("plot_files_reindexed", int64(len(created)-len(missing)))
+	if len(missing) > 0 {
+		viol("plot-file-not-recognised-after-restart", map[string]string{"two_digit_ordinal_present": fmt.Sprint(maxOrd >= 10)},
+			map[string]interface{}{"not_indexed": missing, "indexed": len(seen), "created": len(created), "configure_err": fmt.Sprint(err)})
+	}
+	run.Case(vh.HashS(fmt.Sprintf("keeper-%d-%d", before, n)), maxOrd >= 10)
+}
+
 func main() {
 	run := vh.NewRun("C06", "exploration")
 	wl.Setup(filepath.Join(run.Scratch, "log"), "error")
@@ -200,5 +326,11 @@ func main() {
 			concurrentCase(run, root, i, nseq+i)
 		}
 	})
-	run.Finish("sequential case = seeded wallet history biased to plot-key issuance, address generation, restarts and export/import (engine checks every issued key: derived key at next external index, unique, ordinal==index, lookup agrees, also after restart); concurrent case = 2-8 goroutines issuing keys through GenerateNewPublicKey/NextAddresses on 1-2 keystores, the recorded issuance log is checked as a set (unique keys, per keystore indices exactly consecutive, each key the derived one), then restart; non-trivial = >=2 plot keys issued and a restart / >=4 concurrent issuances", run.N(40, 400))
+	nkeep := run.N(24, 300)
+	vh.Parallel(nkeep, 8, func(i int) {
+		if run.Want(nseq + nconc + i) {
+			keeperCase(run, root, i, nseq+nconc+i)
+		}
+	})
+	run.Finish("keeper case = a real capacity keeper creates 1-14 header-only bl-24 spaces on a real wallet that issued 0-12 keys before; every plot file name must carry the wallet's ordinal of its key, ordinals consecutive; after closing and reopening the wallet a second keeper must index every file (non-trivial = an ordinal >= 10 occurred); sequential case = seeded wallet history biased to plot-key issuance, address generation, restarts and export/import (engine checks every issued key: derived key at next external index, unique, ordinal==index, lookup agrees, also after restart); concurrent case = 2-8 goroutines issuing keys through GenerateNewPublicKey/NextAddresses on 1-2 keystores, the recorded issuance log is checked as a set (unique keys, per keystore indices exactly consecutive, each key the derived one), then restart; non-trivial = >=2 plot keys issued and a restart / >=4 concurrent issuances", run.N(40, 400))
 }
